@@ -67,4 +67,4 @@ def low_degree(sc):
     sh = sc["shape"]
     if sh["exempt"] != 1:
         return False
-    return any(d == 2 and (j % sh["width"]) in sh.get("neg", []) for j, d in enumerate(sh.get("aux_degs", [])))
+    return any(d >= 2 and (j % sh["width"]) in sh.get("neg", []) for j, d in enumerate(sh.get("aux_degs", [])))
